@@ -25,7 +25,7 @@ ASSUMPTIONS = [
     "finite differences are exact for multilinear terms (h = 1); compared with rtol 1e-9",
 ]
 
-NAMES = ["a", "b", "c", "d", "C", "scale", "x1"]
+NAMES = ["a", "b", "c", "d", "C", "scale", "x1", "ab"]  # ("ab" next to the quoted name "a b")
 QUOTED = ["a b", "u|v"]
 CALLS = ["log(a)", "f(b, c)", "np.exp(d)"]
 
@@ -144,6 +144,16 @@ def check_symbolic(case) -> Outcome:
                 break
     if libio.terms_json(f) != before:
         out.fail("differentiate-mutates-formula", f"{f!r}")
+    # the same derivative through model specs (every member of a structured spec is differentiated)
+    from formulaic import ModelSpec
+
+    try:
+        dspec = ModelSpec.from_spec(f).differentiate(*wrt)
+        via_spec = libio.terms_json(dspec.formula) if isinstance(dspec, ModelSpec) else libio.terms_json(dspec._map(lambda sp_: sp_.formula))
+    except Exception as e:
+        via_spec = f"raised {type(e).__name__}: {str(e)[:100]}"
+    if via_spec != libio.terms_json(d):
+        out.fail("spec-derivative-differs", f"d/d{wrt} of {f!r}: via ModelSpec(s).differentiate {via_spec} vs {libio.terms_json(d)}", shape=shape, ordering=ordering)
     # history on one formula object: mutate it between differentiations; every derivative is that of the *current* terms
     if shape == "simple" and case.get("mutations"):
         from formulaic.parser.types import Factor, Term
@@ -175,7 +185,8 @@ def gen_symbolic():
     return st.fixed_dictionaries(
         {
             "parts": st.lists(st.tuples(terms_strategy(pool), st.booleans()), min_size=2, max_size=2),
-            "wrt": st.lists(st.sampled_from(NAMES + QUOTED + CALLS + ["zz"]), min_size=1, max_size=3),
+            # (also: no variable at all, and names that only differ from a factor by blanks)
+            "wrt": st.lists(st.sampled_from(NAMES + QUOTED + CALLS + ["zz", "a  b", "log( a )", " a"]), min_size=0, max_size=3),
             "ordering": st.sampled_from(["degree", "degree", "sort", "none"]),
             "shape": st.sampled_from(["simple", "simple", "twosided", "multipart", "keywords"]),
             "mutations": st.lists(st.tuples(st.sampled_from(["del", "pop", "append", "set", "remove"]), st.integers(0, 7)), max_size=3),
